@@ -104,6 +104,22 @@ def impl_case(case):
     try:
         if p["outcome"] != "ok":
             return {"outcome": "no-design", "stage": p["stage"], "error": p.get("error"), "ctr0": p["ctr0"]}
+        # sequences that reach the design file undesigned (used in no strand) keep their degenerate codes; a design file may
+        # just as well give them concrete bases: do so (name and name* consistently) when finish accepts the result
+        lines = p["mfe"].split("\n"); nrec = (len(lines) - 1) // 4
+        recname = {lines[4 * k].split(":", 1)[1]: k for k in range(nrec)}
+        changed = False
+        for nm, k in list(recname.items()):
+            sq = lines[4 * k + 1].split(" ", 1)
+            if not nm.endswith("*") and nm + "*" in recname and "+" not in sq[0] and any(ch not in "ACGT" for ch in sq[0]):
+                conc = "".join(rng.choice(pepper.GROUPS.get(ch, ch)) for ch in sq[0])
+                k2 = recname[nm + "*"]; sq2 = lines[4 * k2 + 1].split(" ", 1)
+                rc = "".join({"A": "T", "T": "A", "C": "G", "G": "C"}[b] for b in reversed(conc))
+                lines[4 * k + 1] = conc + " " + sq[1]; lines[4 * k2 + 1] = rc + " " + sq2[1]; changed = True
+        if changed:
+            o, seqs2, strands2, err = implrun.run_finish(d, "\n".join(lines), "c")
+            if o == "ok":
+                p["mfe"] = "\n".join(lines); p["seqs"] = seqs2; p["strands"] = strands2
         base_recs = read_mfe(p["mfe"])
         res = {"outcome": "ok", "ctr0": p["ctr0"], "mfe": p["mfe"], "seqs": p["seqs"], "strands": p["strands"], "own_reader_ok": base_recs is not None, "faults": []}
         for i, (desc, text) in enumerate(faults(rng, p["mfe"], case["limit"])):
